@@ -34,10 +34,28 @@ class Table:
         return res[0] if all(x == res[0] for x in res) else 'ambiguous'
 
 
-def table(body, fx, name_call, name_discr=None, max_paths=4000):
+LOG_PREFIXES = ('log::', 'core::fmt', 'std::fmt', 'alloc::fmt', 'core::panicking', 'std::hint::must_use', 'std::fmt::format')
+
+
+def _is_logging(t):
+    r = callee_res(t)
+    mac = t.get('mac') or ''
+    return r.startswith(LOG_PREFIXES) or 'log::' in mac or '__log' in mac or r.endswith(('::fmt', 'Arguments::<\'a>::new', 'new_debug', 'new_display'))
+
+
+def table(body, fx, name_call, name_discr=None, max_paths=4000, first_effect=False, start=0, stop_blocks=None):
     """name_call(terminator, origins, bb) -> atom name or None for a call whose boolean result is an atom.
     name_discr(cond term) -> atom name or None for an enum discriminant the function dispatches on (values: variant names)."""
     og = Origins(body, summaries=False)
+
+    def through_gotos(bb):
+        hops = 0
+        while hops < 16 and not body.blocks[bb]['st'] and body.blocks[bb]['term']['t'] == 'goto':
+            bb = body.blocks[bb]['term']['target']
+            hops += 1
+        return bb
+    if stop_blocks:
+        stop_blocks = {through_gotos(k): v for k, v in stop_blocks.items()}
     rows = []
     atoms = set()
     n_paths = [0]
@@ -47,6 +65,10 @@ def table(body, fx, name_call, name_discr=None, max_paths=4000):
             raise CheckBroken('%s: too many paths for a decision table' % body.key)
         if bb in seen:
             return          # loops are not part of a decision function's own control flow (iterators are atoms)
+        if stop_blocks and through_gotos(bb) in stop_blocks:
+            n_paths[0] += 1
+            rows.append((dict(assign), stop_blocks[through_gotos(bb)]))
+            return
         seen = seen | {bb}
         env = dict(env)
         blk = body.blocks[bb]
@@ -80,6 +102,9 @@ def table(body, fx, name_call, name_discr=None, max_paths=4000):
         k = t['t']
         if k == 'return':
             n_paths[0] += 1
+            if first_effect:
+                rows.append((dict(assign), 'drop'))
+                return
             r = env.get(0)
             if r is None:
                 rows.append((dict(assign), None))
@@ -90,6 +115,11 @@ def table(body, fx, name_call, name_discr=None, max_paths=4000):
             return
         if k == 'call':
             nm = name_call(t, og, bb)
+            if first_effect and not nm and not _is_logging(t):
+                # the first thing the function does besides testing and logging: it went on ("continue") instead of dropping out
+                n_paths[0] += 1
+                rows.append((dict(assign), 'continue'))
+                return
             d = t.get('dest')
             if d is not None and not d.get('p'):
                 env[d['l']] = ('atom', nm, False) if nm else None
@@ -148,5 +178,5 @@ def table(body, fx, name_call, name_discr=None, max_paths=4000):
             return
         for s_ in body.succs(bb):
             walk(s_, env, assign, seen)
-    walk(0, {}, {}, frozenset())
+    walk(start, {}, {}, frozenset())
     return Table(rows, sorted(atoms))
